@@ -183,23 +183,29 @@ def run(rep, only=None):
     pa = core.py_h(lines)
     dis = [{'request': l[:3000], 'model': a[:1500], 'python': b[:1500], 'class': h[2]}
            for l, a, b, h in zip(lines, la, pa, hist) if a != b]
-    tl = ['track-trace ' + genhist.history_to_s(cl, calls) for cl, calls, _ in hist]
-    ta = core.py_h(tl)
     findings = []
     steps_checked = 0
-    allreqs, spans = [], []
-    for ans in ta:
-        r = mstate_requests(ans)
-        spans.append((len(allreqs), len(allreqs) + len(r)))
-        allreqs += r
-    allans = core.lean_drv(allreqs)
-    for (cl, calls, tag), ans, req, (a, b) in zip(hist, ta, lines, spans):
-        fs = check_history(rep, cl, calls, ans, allans[a:b])
-        steps_checked += ans.count('(step ')
-        for f in fs:
-            f['history'] = req[:4000]
-            f['class'] = tag
-            findings.append(f)
+    sample_trace = ''
+    # in batches: a trace carries the full state after every call (the thorough tier produces several GB of them)
+    B = 200
+    for lo_ in range(0, len(hist), B):
+        hb, lb = hist[lo_:lo_ + B], lines[lo_:lo_ + B]
+        ta = core.py_h(['track-trace ' + genhist.history_to_s(cl, calls) for cl, calls, _ in hb])
+        sample_trace = sample_trace or ta[0][:800]
+        allreqs, spans = [], []
+        for ans in ta:
+            r = mstate_requests(ans)
+            spans.append((len(allreqs), len(allreqs) + len(r)))
+            allreqs += r
+        allans = core.lean_drv(allreqs)
+        for (cl, calls, tag), ans, req, (a, b) in zip(hb, ta, lb, spans):
+            fs = check_history(rep, cl, calls, ans, allans[a:b])
+            steps_checked += ans.count('(step ')
+            for f in fs:
+                f['history'] = req[:4000]
+                f['class'] = tag
+                findings.append(f)
+        del ta, allreqs, allans
     n_calls = sum(len(c) for _, c, _ in hist)
     rep.coverage.update({
         'evaluations': len(hist), 'distinct_nontrivial': len(set(lines)),
@@ -211,7 +217,7 @@ def run(rep, only=None):
         'programs': len(hist), 'disagreements_checked': len(dis) + len(findings),
         'calls': n_calls, 'steps_compared_with_machine': steps_checked,
         'raises_agreed': sum(1 for a in pa if a.startswith('(raise')),
-        'samples': [lines[0][:1500], ta[0][:800]],
+        'samples': [lines[0][:1500], sample_trace],
     })
     rep.assumptions.append('calls are well-typed w.r.t. the interpreter API (Pattern vs Proved arguments): Python does not check '
                            'this at run time; the harness never passes a Proved where a Pattern is declared')
